@@ -205,6 +205,11 @@ fn translate_select_pipeline(
     } else {
         (None, limit.map(expr_of_i64))
     };
+    let limit = if limit.is_none() && offset.is_some() && ctx.dialect.offset_requires_limit() {
+        Some(expr_of_i64(-1))
+    } else {
+        limit
+    };
 
     // If we have a FETCH we need to make sure that:
     // - we have an OFFSET (set to 0)
